@@ -74,6 +74,7 @@ type hDenom struct {
 type hBinding struct {
 	Svc      string
 	Provider int
+	Price    int64
 }
 type hCtx struct {
 	ID       string
@@ -101,23 +102,24 @@ type hToken struct {
 
 // world is what the generator knows about the objects its history created (updated from tx results).
 type world struct {
-	seq       int
-	nftDenoms []hDenom
-	nfts      []hNFT
-	mtDenoms  []hDenom
-	mts       []hMT
-	svcs      []string
-	bindings  []hBinding
-	ctxs      []hCtx
-	feeds     []hFeed
-	htlcs     []hHTLC
-	tokens    []hToken
-	stakers   []hStake
-	proposals []uint64       // submitted, not yet voted
-	paramsSet int            // proposals that passed through a vote
-	modules   map[string]int // successful messages per module
-	msgOK     map[string]int
-	msgFail   map[string]int
+	seq        int
+	nftDenoms  []hDenom
+	nfts       []hNFT
+	mtDenoms   []hDenom
+	mts        []hMT
+	svcs       []string
+	bindings   []hBinding
+	ctxs       []hCtx
+	feeds      []hFeed
+	htlcs      []hHTLC
+	tokens     []hToken
+	stakers    []hStake
+	proposals  []uint64       // submitted, not yet voted
+	contention int            // successful multi-call transactions of a poor consumer
+	paramsSet  int            // proposals that passed through a vote
+	modules    map[string]int // successful messages per module
+	msgOK      map[string]int
+	msgFail    map[string]int
 }
 
 func newWorld() *world {
@@ -188,7 +190,14 @@ func (h *hist) nextBlock(t *rapid.T, maxTxs int) blockOp {
 	return op
 }
 
-func (h *hist) user(t *rapid.T, label string) int { return rapid.IntRange(0, h.rich-1).Draw(t, label) }
+// user draws an account: mostly one of the funded users, sometimes one of the two poor ones (1000 stake), so that
+// consumers run out of money.
+func (h *hist) user(t *rapid.T, label string) int {
+	if len(h.n.Users) > h.rich && rapid.IntRange(0, 5).Draw(t, label+"/poor") == 0 {
+		return rapid.IntRange(h.rich, len(h.n.Users)-1).Draw(t, label+"/p")
+	}
+	return rapid.IntRange(0, h.rich-1).Draw(t, label)
+}
 
 // nextTx draws one transaction (one or two messages of one module family).
 func (h *hist) nextTx(t *rapid.T) (txSpec, bool) {
@@ -224,6 +233,27 @@ func (h *hist) nextTx(t *rapid.T) (txSpec, bool) {
 				out := fmt.Sprintf(`{"header":{},"body":{"last":"%d.%02d"}}`, rapid.IntRange(0, 5000).Draw(t, "val"), rapid.IntRange(0, 99).Draw(t, "frac"))
 				return txSpec{pu, h.enc(&servicetypes.MsgRespondService{RequestId: r.id, Provider: r.provider, Result: hResult, Output: out})}, true
 			}
+		}
+	}
+	if rapid.IntRange(0, 9).Draw(t, "contention") == 0 {
+		// a poor consumer opens several contexts in one transaction against a provider it can pay only once or
+		// twice: their first batches fall due in the same end block and not all of them can be charged
+		var dear []hBinding
+		for _, b := range w.bindings {
+			if b.Price >= 300 {
+				dear = append(dear, b)
+			}
+		}
+		if len(dear) > 0 && len(h.n.Users) > h.rich {
+			b := pick(t, "dearbinding", dear)
+			pu := rapid.IntRange(h.rich, len(h.n.Users)-1).Draw(t, "pooruser")
+			n := rapid.IntRange(2, 4).Draw(t, "ncalls")
+			var msgs []sdk.Msg
+			for i := 0; i < n; i++ {
+				msgs = append(msgs, &servicetypes.MsgCallService{ServiceName: b.Svc, Providers: []string{h.addr(b.Provider)}, Consumer: h.addr(pu),
+					Input: fmt.Sprintf(`{"header":{},"body":{"n":%d}}`, i), ServiceFeeCap: coins("stake", 1000), Timeout: 5})
+			}
+			return txSpec{pu, h.enc(msgs...)}, true
 		}
 	}
 	if rapid.IntRange(0, 11).Draw(t, "govfam") == 0 {
@@ -491,11 +521,14 @@ func (h *hist) nextTx(t *rapid.T) (txSpec, bool) {
 		case a == 1 || len(w.bindings) == 0:
 			svc := pick(t, "svc", w.svcs)
 			price := rapid.IntRange(1, 20).Draw(t, "price")
+			if rapid.IntRange(0, 3).Draw(t, "dear") == 0 {
+				price = rapid.SampledFrom([]int{300, 400, 700}).Draw(t, "dearprice") // a poor consumer can pay one such batch, not two
+			}
 			pricing := fmt.Sprintf(`{"price":"%dstake"}`, price)
 			if rapid.Bool().Draw(t, "promo") {
 				pricing = fmt.Sprintf(`{"price":"%dstake","promotions_by_volume":[{"volume":2,"discount":"0.5"}]}`, price)
 			}
-			return txSpec{u, h.enc(&servicetypes.MsgBindService{ServiceName: svc, Provider: me, Deposit: coins("stake", 25000), Pricing: pricing, QoS: uint64(rapid.IntRange(1, 3).Draw(t, "qos")), Options: "{}", Owner: me})}, true
+			return txSpec{u, h.enc(&servicetypes.MsgBindService{ServiceName: svc, Provider: me, Deposit: coins("stake", 25000+int64(price)*1000), Pricing: pricing, QoS: uint64(rapid.IntRange(1, 3).Draw(t, "qos")), Options: "{}", Owner: me})}, true
 		case a <= 4:
 			b := pick(t, "binding", w.bindings)
 			var provs []string
@@ -506,11 +539,18 @@ func (h *hist) nextTx(t *rapid.T) (txSpec, bool) {
 			}
 			sort.Strings(provs)
 			rep := rapid.Bool().Draw(t, "repeated")
-			msg := &servicetypes.MsgCallService{ServiceName: b.Svc, Providers: provs, Consumer: me, Input: hInput, ServiceFeeCap: coins("stake", 50), Timeout: int64(rapid.IntRange(1, 6).Draw(t, "timeout"))}
+			msg := &servicetypes.MsgCallService{ServiceName: b.Svc, Providers: provs, Consumer: me, Input: hInput, ServiceFeeCap: coins("stake", int64(rapid.SampledFrom([]int{50, 50, 1000}).Draw(t, "cap"))), Timeout: int64(rapid.IntRange(1, 6).Draw(t, "timeout"))}
 			if rep {
 				msg.Repeated, msg.RepeatedFrequency, msg.RepeatedTotal = true, uint64(msg.Timeout)+uint64(rapid.IntRange(0, 4).Draw(t, "freq")), int64(rapid.IntRange(1, 5).Draw(t, "total"))
 			}
-			return txSpec{u, h.enc(msg)}, true
+			// several contexts of one consumer created in one transaction: their first batches fall due together
+			msgs := []sdk.Msg{msg}
+			for k := rapid.SampledFrom([]int{0, 0, 1, 2, 3}).Draw(t, "morecalls"); k > 0; k-- {
+				m2 := *msg
+				m2.Input = fmt.Sprintf(`{"header":{},"body":{"n":%d}}`, k)
+				msgs = append(msgs, &m2)
+			}
+			return txSpec{u, h.enc(msgs...)}, true
 		case a <= 7:
 			// answer an active request
 			type req struct{ id, provider string }
@@ -539,7 +579,25 @@ func (h *hist) nextTx(t *rapid.T) (txSpec, bool) {
 		case a == 8 && len(w.ctxs) > 0:
 			c := pick(t, "ctx", w.ctxs)
 			var m sdk.Msg
-			switch rapid.IntRange(0, 2).Draw(t, "ctxop") {
+			switch rapid.IntRange(0, 4).Draw(t, "ctxop") {
+			case 3:
+				// update with only some of the fields set (0 = leave unchanged): timeout only, frequency only, both
+				upd := &servicetypes.MsgUpdateRequestContext{RequestContextId: c.ID, Consumer: h.addr(c.Consumer)}
+				switch rapid.IntRange(0, 2).Draw(t, "updshape") {
+				case 0:
+					upd.Timeout = int64(rapid.SampledFrom([]int{1, 2, 5, 9, 30, 100}).Draw(t, "updtimeout"))
+				case 1:
+					upd.RepeatedFrequency = uint64(rapid.SampledFrom([]int{1, 2, 5, 9, 30}).Draw(t, "updfreq"))
+				default:
+					upd.Timeout = int64(rapid.IntRange(1, 6).Draw(t, "updtimeout2"))
+					upd.RepeatedFrequency = uint64(upd.Timeout) + uint64(rapid.IntRange(0, 3).Draw(t, "updfreq2"))
+				}
+				if rapid.Bool().Draw(t, "updtotal") {
+					upd.RepeatedTotal = int64(rapid.SampledFrom([]int{-1, 1, 3, 10}).Draw(t, "total"))
+				}
+				m = upd
+			case 4:
+				m = &servicetypes.MsgStartRequestContext{RequestContextId: c.ID, Consumer: h.addr(c.Consumer)}
 			case 0:
 				m = &servicetypes.MsgPauseRequestContext{RequestContextId: c.ID, Consumer: h.addr(c.Consumer)}
 			case 1:
@@ -632,6 +690,11 @@ func (h *hist) observe(op blockOp, resp *abci.ResponseFinalizeBlock) {
 		if res.Code != 0 {
 			continue
 		}
+		if tx.User >= h.rich && len(msgs) >= 2 {
+			if c, ok := msgs[0].(*servicetypes.MsgCallService); ok && c.ServiceFeeCap.AmountOf("stake").Int64() >= 1000 {
+				w.contention++
+			}
+		}
 		for _, m := range msgs {
 			switch x := m.(type) {
 			case *nfttypes.MsgIssueDenom:
@@ -670,7 +733,9 @@ func (h *hist) observe(op blockOp, resp *abci.ResponseFinalizeBlock) {
 			case *servicetypes.MsgDefineService:
 				w.svcs = append(w.svcs, x.Name)
 			case *servicetypes.MsgBindService:
-				w.bindings = append(w.bindings, hBinding{x.ServiceName, tx.User})
+				var price int64
+				fmt.Sscanf(x.Pricing, `{"price":"%dstake`, &price)
+				w.bindings = append(w.bindings, hBinding{x.ServiceName, tx.User, price})
 			case *servicetypes.MsgCallService:
 				for _, id := range attrs(res.Events, "create_context", "request_context_id") {
 					w.ctxs = append(w.ctxs, hCtx{id, tx.User})
@@ -760,7 +825,9 @@ func (h *hist) dueTx(t *rapid.T) (txSpec, bool) {
 			txSpec{c, h.enc(&servicetypes.MsgPauseRequestContext{RequestContextId: id.String(), Consumer: rc.Consumer})},
 			txSpec{c, h.enc(&servicetypes.MsgStartRequestContext{RequestContextId: id.String(), Consumer: rc.Consumer})},
 			txSpec{c, h.enc(&servicetypes.MsgKillRequestContext{RequestContextId: id.String(), Consumer: rc.Consumer})},
-			txSpec{c, h.enc(&servicetypes.MsgUpdateRequestContext{RequestContextId: id.String(), Consumer: rc.Consumer, Timeout: 2, RepeatedFrequency: 2, RepeatedTotal: -1})})
+			txSpec{c, h.enc(&servicetypes.MsgUpdateRequestContext{RequestContextId: id.String(), Consumer: rc.Consumer, Timeout: 2, RepeatedFrequency: 2, RepeatedTotal: -1})},
+			txSpec{c, h.enc(&servicetypes.MsgUpdateRequestContext{RequestContextId: id.String(), Consumer: rc.Consumer, Timeout: int64(rc.RepeatedFrequency) + 3})},
+			txSpec{c, h.enc(&servicetypes.MsgUpdateRequestContext{RequestContextId: id.String(), Consumer: rc.Consumer, RepeatedFrequency: 1})})
 		return false
 	})
 	// HTLCs expiring in this block: claim attempts (the refund happens in the begin blocker, before the txs)
